@@ -747,6 +747,12 @@ def trigpair(theta):
     ths = z3.simplify(theta.e)
     key = ths.get_id()
     if key not in c.opaque:
+        comb = _linear_combination_of_atoms(c, theta)
+        if comb is not None:
+            c.opaque[key] = ('comb', comb, None, ths)
+    if key in c.opaque and c.opaque[key][0] == 'comb':
+        return _expand(c.opaque[key][1], 0)
+    if key not in c.opaque:
         t, s, co = new_atom('opq', kind='opaque')
         c.assumptions.append(t.e == theta.e)
         nm = str(t.e)
@@ -760,6 +766,35 @@ def trigpair(theta):
         c.notes.append(('opaque-angle', str(z3.simplify(theta.e))[:120]))
     t, s, co = c.opaque[key][:3]
     return s, co
+
+
+def _linear_combination_of_atoms(c, theta):
+    """an angle expression without an affine form that equals +-(atom) +- (atom) (+- atom) as a polynomial identity in
+    the value variables, e.g. s*theta == theta - (1-s)*theta once (1-s)*theta is an atom: its sine and cosine are then
+    given by the addition formulas instead of a fresh unrelated pair (A0, DESIGN 3.4)"""
+    from .poly import which_zero
+    names = list(c.atoms)
+    if not names or len(names) > 12:
+        return None
+    cands, tags = [], []
+    for i, n1 in enumerate(names):
+        v1 = c.atoms[n1][0]
+        for s1 in (1, -1):
+            cands.append(theta.e - s1 * v1)
+            tags.append([(n1, s1)])
+            for n2 in names[i + 1:]:
+                v2 = c.atoms[n2][0]
+                for s2 in (1, -1):
+                    cands.append(theta.e - s1 * v1 - s2 * v2)
+                    tags.append([(n1, s1), (n2, s2)])
+    # the value variables of opaque atoms are defined by t == expr: substitute them
+    subst = [(t.e, ex, 'subst') for (t, _s, _c, ex) in [v for v in c.opaque.values() if v[0] != 'comb']]
+    k = which_zero(list(c.rules) + subst, cands, max_terms=2000)
+    if k is None:
+        return None
+    c.notes.append(('angle-combination', str(tags[k])))
+    c.nlemmas = getattr(c, 'nlemmas', 0) + 1
+    return tags[k]
 
 
 def _half_atom(name):
